@@ -161,6 +161,9 @@ class Program:
         self.functions: Dict[str, FuncInfo] = {}
         self._load()
         self._index()
+        self.renamed_back = {}
+        if normalize:
+            self._recover_renames()
         self.normalizer = None
         if normalize:
             from .normalize import normalize_program
@@ -274,6 +277,76 @@ class Program:
                 ci.attrs[st.target.id] = st.value
                 ci.attr_nodes[st.target.id] = st
         return ci
+
+    # ------------------------------------------------------------------ renamed anchors
+    @staticmethod
+    def body_digest(node) -> str:
+        """Digest of a function body (docstring dropped) with the function's own name abstracted: a pure rename keeps it."""
+        import hashlib
+        body = node.body
+        if body and isinstance(body[0], ast.Expr) and isinstance(body[0].value, ast.Constant) and isinstance(body[0].value.value, str):
+            body = body[1:]
+        own = node.name
+        parts = []
+        for st in body:
+            d = ast.dump(st)
+            d = d.replace(f"attr='{own}'", "attr='@'").replace(f"id='{own}'", "id='@'")
+            parts.append(d)
+        a = node.args
+        sig = ast.dump(a)
+        return hashlib.sha1(('|'.join(parts) + '#' + sig).encode('utf-8')).hexdigest()[:16]
+
+    def _recover_renames(self):
+        """A function the rules know by name (known_digests.txt) that is gone, while the same module / class has ONE new function
+        with the identical body and signature, was renamed: the old name is restored in the syntax trees (definition, attribute
+        and name references, import aliases), so that a rename is not a verdict.  Iterated, because the body of one renamed
+        function may call another."""
+        import os as _os
+        path = _os.path.join(_os.path.dirname(_os.path.abspath(__file__)), 'known_digests.txt')
+        if not _os.path.exists(path):
+            return
+        known = {}
+        with open(path, encoding='utf-8') as f:
+            for line in f:
+                if line.strip() and not line.startswith('#'):
+                    q, _, d = line.rstrip('\n').partition('\t')
+                    known[q] = d
+        for _ in range(4):
+            vanished = [q for q in known if q not in self.functions and q.rpartition('.')[0] in (set(self.modules) | set(self.classes))]
+            if not vanished:
+                return
+            new = [f for q, f in self.functions.items() if q not in known and not q.endswith('.setter') and not f.module.generated
+                   and not f.module.legacy and not isinstance(f.node, ast.Lambda)]
+            taken_names = {q.rpartition('.')[2] for q in known}
+            renames = {}
+            for q in vanished:
+                owner, _, old = q.rpartition('.')
+                cands = [f for f in new if f.qualname.rpartition('.')[0] == owner and self.body_digest(f.node) == known[q]]
+                if len(cands) == 1 and cands[0].name not in taken_names and cands[0].name not in renames:
+                    renames[cands[0].name] = old
+            if not renames:
+                return
+            for m in self.modules.values():
+                if m.generated or m.legacy:
+                    continue
+                for n in ast.walk(m.tree):
+                    if isinstance(n, (ast.FunctionDef, ast.AsyncFunctionDef)) and n.name in renames:
+                        n.name = renames[n.name]
+                    elif isinstance(n, ast.Attribute) and n.attr in renames:
+                        n.attr = renames[n.attr]
+                    elif isinstance(n, ast.Name) and n.id in renames:
+                        n.id = renames[n.id]
+                    elif isinstance(n, ast.alias) and n.name in renames:
+                        n.name = renames[n.name]
+                    elif isinstance(n, ast.keyword) and False:
+                        pass
+                m.scope = {}
+                m.star_imports = []
+                m._parents = None
+            self.renamed_back.update(renames)
+            self.classes = {}
+            self.functions = {}
+            self._index()
 
     # ------------------------------------------------------------------ resolution
     def public_names(self, m: Module) -> List[str]:
